@@ -1289,6 +1289,71 @@ timer_harness!(c12_tp_timer_send_upgrading, c12_tp_timer_wire_upgrading, Protoco
 timer_harness!(c12_tp_timer_send_upgraded, c12_tp_timer_wire_upgraded, ProtocolVersion::UpgradedToV5);
 timer_harness!(c12_tp_timer_send_v5, c12_tp_timer_wire_v5, ProtocolVersion::V5);
 
+// ---- quick-tier slice of the C08 deadline clause of timer_plain_send_contract (the complete contract
+// is thorough tier and reaches no verdict in 15 min): a reachable (or still starting) plain source speaking NTPv4 / NTPv5, without an earlier pending
+// request, whose state is
+// concrete except for the poll intervals (desired, remote minimum, last), reach register, tries,
+// stratum and the deny flag sends its poll and records
+// a pending request that expires exactly POLL_WINDOW (5 s) after "now" -- whatever the poll interval.
+fn timer_deadline_slice(version: ProtocolVersion) {
+    let mut s = NtpSource {
+        nts: None,
+        last_poll_interval: any_poll(),
+        remote_min_poll_interval: any_poll(),
+        current_request_identifier: None,
+        have_deny_rstr_response: kani::any(),
+        stratum: kani::any(),
+        reference_id: ReferenceId::from_int(7),
+        source_addr: any_addr_v4(),
+        source_id: ReferenceId::from_int(9),
+        reach: Reach(kani::any()),
+        tries: kani::any(),
+        controller: RecCtl { desired: any_poll() },
+        source_config: SourceConfig {
+            poll_interval_limits: PollIntervalLimits { min: PollInterval::from_byte(4), max: PollInterval::from_byte(10) },
+            initial_poll_interval: PollInterval::from_byte(4),
+        },
+        buffer: [0; 1024],
+        protocol_version: version,
+        bloom_filter: RemoteBloomFilter::new(16).unwrap(),
+        id: ClockId(1),
+        source_info: Arc::new(RwLock::new(NtpSourceInfo { ip_list: Arc::from(Vec::<IpAddr>::new()), server_id: fixed_server_id(), local_stratum: 16 })),
+        source_snapshots: Arc::new(Mutex::new(HashMap::new())),
+    };
+    kani::assume(s.reach.is_reachable() || s.tries < 3);
+    let t0 = tokio::time::Instant::now();
+    let acts = s.handle_timer();
+    let t1 = tokio::time::Instant::now();
+    core::mem::forget(acts);
+    let recorded = match &s.current_request_identifier {
+        Some((_, dl)) => Some(*dl),
+        None => None,
+    };
+    let Some(deadline) = recorded else {
+        assert!(false, "pending request recorded");
+        return;
+    };
+    assert!(deadline >= t0 + POLL_WINDOW && deadline <= t1 + POLL_WINDOW, "the pending request expires 5 s after it was sent");
+    kani::cover!(plog(s.current_poll_interval()) >= 6, "poll interval longer than the window reachable");
+    core::mem::forget(s);
+}
+harness! {
+    #[kani::stub(core::time::Duration::mul_f64, mul_f64_rec)]
+    #[kani::stub(crate::packet::NtpPacket::serialize, serialize_rec)]
+    #[kani::unwind(10)]
+    fn c08_b_slice_timer_deadline_v4() {
+        timer_deadline_slice(ProtocolVersion::V4);
+    }
+}
+harness! {
+    #[kani::stub(core::time::Duration::mul_f64, mul_f64_rec)]
+    #[kani::stub(crate::packet::NtpPacket::serialize, serialize_rec)]
+    #[kani::unwind(10)]
+    fn c08_b_slice_timer_deadline_v5() {
+        timer_deadline_slice(ProtocolVersion::V5);
+    }
+}
+
 // ================================================================ C10: current_poll_interval and the timer factor
 #[kani::proof]
 #[kani::unwind(12)]
